@@ -471,6 +471,11 @@ func typedNil(c *core.Ctx) {
 		neverNilMemo[f] = true // coinductive for recursion
 		res := true
 		for _, b := range f.Blocks {
+			// the recover block returns the result slots as a recovered panic left them: only reachable
+			// when a deferred function recovers
+			if b == f.Recover && !defersRecover(f) {
+				continue
+			}
 			for _, ins := range b.Instrs {
 				if ret, ok := ins.(*ssa.Return); ok && len(ret.Results) == 1 {
 					if ok2, _ := nonNil(ret.Results[0], b, depth+1); !ok2 {
@@ -555,6 +560,33 @@ func typedNil(c *core.Ctx) {
 			if x.Op == token.MUL {
 				if g, ok := x.X.(*ssa.Global); ok && g.Pkg == sp {
 					return true, "load of sentinel global " + g.Name()
+				}
+				// a function with a defer returns through a result slot: the slot holds what was stored
+				if slot, ok := x.X.(*ssa.Alloc); ok && !slot.Heap && slot.Referrers() != nil {
+					stores, all := 0, true
+					for _, ref := range *slot.Referrers() {
+						switch r := ref.(type) {
+						case *ssa.Store:
+							if r.Addr != ssa.Value(slot) {
+								all = false // the slot's address is stored somewhere
+								break
+							}
+							stores++
+							if ok2, _ := nonNil(r.Val, r.Block(), depth+1); !ok2 {
+								all = false
+							}
+						case *ssa.UnOp:
+							if r.Op != token.MUL {
+								all = false
+							}
+						case *ssa.DebugRef:
+						default:
+							all = false
+						}
+					}
+					if stores > 0 && all {
+						return true, "result slot, every store non-nil"
+					}
 				}
 			}
 		case *ssa.Extract:
@@ -742,6 +774,50 @@ func isNilTestOf(bo *ssa.BinOp, param *ssa.Parameter) bool {
 	}
 	cst, ok := other.(*ssa.Const)
 	return ok && cst.IsNil()
+}
+
+// defersRecover: some deferred call of f (a static callee or a function literal) calls recover.
+func defersRecover(f *ssa.Function) bool {
+	calls := func(g *ssa.Function) bool {
+		if g == nil {
+			return true // unknown callee
+		}
+		for _, b := range g.Blocks {
+			for _, ins := range b.Instrs {
+				if c, ok := ins.(*ssa.Call); ok {
+					if bi, ok := c.Call.Value.(*ssa.Builtin); ok && bi.Name() == "recover" {
+						return true
+					}
+				}
+			}
+		}
+		return false
+	}
+	for _, b := range f.Blocks {
+		for _, ins := range b.Instrs {
+			d, ok := ins.(*ssa.Defer)
+			if !ok {
+				continue
+			}
+			if d.Call.IsInvoke() {
+				return true
+			}
+			switch v := d.Call.Value.(type) {
+			case *ssa.Function:
+				if calls(v) {
+					return true
+				}
+			case *ssa.MakeClosure:
+				if fn, ok := v.Fn.(*ssa.Function); !ok || calls(fn) {
+					return true
+				}
+			case *ssa.Builtin:
+			default:
+				return true
+			}
+		}
+	}
+	return false
 }
 
 // dominatedByBranch reports whether block `at` is dominated by the successor taken when cond == want.
